@@ -363,6 +363,19 @@ func init() {
 				rec(t, k, nil, namedErr{"timeout"}, "nil", nil)
 			}
 		}
+		// a segment whose head parses cleanly but which runs past the scanner limit with filler the reader would drop
+		if small := texts["fedWireMessage-BankTransfer.txt"]; small != "" {
+			for _, fill := range []string{"\n", "\r\n", " ", "*"} {
+				for _, n := range []int{66000, 70000, 140000} {
+					if n > 70000 && !thorough {
+						continue
+					}
+					reps := n / len(fill)
+					rec(small+"{4320}Reference*"+strings.Repeat(fill, reps)+"trailing text that must not vanish", 0, nil, io.EOF, "nil", nil)
+					rec("{3320}Sender Reference*"+strings.Repeat(fill, reps)+"trailing text\n"+small, 4096, nil, io.EOF, "nil", nil)
+				}
+			}
+		}
 		// over-long segments around the scanner limit
 		base := texts["fedWireMessage-CustomerTransfer.txt"]
 		if base != "" {
